@@ -528,18 +528,23 @@ class SimH(SimA):
             ws.conn = conn
         qs = raw_query if raw_query is not None else self.qs(q)
         hs = []
-        if self.host is not None:
+        given = {k.lower() for k in (headers or {})}
+        if self.host is not None and 'host' not in given:
             hs.append(('Host', self.host))
         if body is not None or declared is not None:
-            hs.append(('Content-Length', str(
-                len(body or b'') if declared is None else declared)))
-            hs.append(('Content-Type', 'text/plain;charset=UTF-8'))
+            if 'content-length' not in given:
+                hs.append(('Content-Length', str(
+                    len(body or b'') if declared is None else declared)))
+            if 'content-type' not in given:
+                hs.append(('Content-Type', 'text/plain;charset=UTF-8'))
         if ws is not None:
             hs.append(('Sec-WebSocket-Key', WS_KEY))
             hs.append(('Sec-WebSocket-Version', '13'))
         for k, v in (headers or {}).items():
             if v is None:
                 hs = [h for h in hs if h[0].lower() != k.lower()]
+            elif isinstance(v, (list, tuple)):
+                hs += [(k, one) for one in v]   # a repeated header line
             else:
                 hs.append((k, v))
         head = '%s %s%s HTTP/1.1\r\n' % (method, path,
